@@ -4,6 +4,7 @@ package main
 
 import (
 	"fmt"
+	"go/constant"
 	"go/token"
 	"go/types"
 	"os"
@@ -455,6 +456,56 @@ func (w *Walker) pathGuardAny(fr *Frame, site ssa.Instruction, alts ...guardAlt)
 							}
 						}
 						expanded = next
+					}
+					// a decided atom computed by helpers over an enumeration / a plan record: every
+					// alternative that gives it this value is a path of its own (constalts.go)
+					for k, v := range env0 {
+						val := atomVal[k]
+						if val == nil || !involvesEnumHelper(val, 0) {
+							continue
+						}
+						as, okA := w.constAlts(ff, val, 0)
+						if !okA {
+							continue
+						}
+						var sub []map[string]bool
+						for _, a := range as {
+							if a.val.Kind() != constant.Bool || constant.BoolVal(a.val) != v {
+								continue
+							}
+							m := map[string]bool{}
+							for _, f := range a.facts {
+								m[f.Text] = f.Holds
+							}
+							sub = append(sub, m)
+						}
+						if len(sub) == 0 || len(sub)*len(expanded) > 256 {
+							continue
+						}
+						var next []map[string]bool
+						for _, e1 := range expanded {
+							for _, e2 := range sub {
+								m := map[string]bool{}
+								clash := false
+								for k, v := range e1 {
+									m[k] = v
+								}
+								for k, v := range e2 {
+									if old, ok := m[k]; ok && old != v {
+										clash = true
+									}
+									if _, ok := m[k]; !ok {
+										m[k] = v
+									}
+								}
+								if !clash {
+									next = append(next, m)
+								}
+							}
+						}
+						if len(next) > 0 {
+							expanded = next
+						}
 					}
 					allFound := true
 					for _, env := range expanded {
